@@ -13,7 +13,7 @@ from lingo_gen import S, sx
 import c02, c03
 
 PROP = "C04"
-LEAN_MODULES = ["DrxProps.C04"]
+LEAN_MODULES = ["DrxProps.C04", "DrxProps.C04b", "DrxProps.C04Link"]
 FAMILIES = ["lspec"]
 RULE = ("programs of the C02 and C03 spaces, in the three script kinds; expected = Lean toJs of the source tree (rendered), observed = Lean "
         "reader of the JavaScript subset applied to the real generate_js_code text, one observable per handler plus one for the class / "
@@ -220,6 +220,93 @@ def with_kind(tree, kind, rng):
     return tree[:4] + hs
 
 
+class TellGen:
+    """handlers in which tell blocks occur in sequences and nested (up to 3 deep), inside if branches and loop bodies, with movie /
+    system properties (`the stageColor`, … : `_movie.X` outside, the told window's bare `X` inside a block), movie properties and
+    commands before, inside and after the inner blocks — what the translation of a property depends on is the block that is
+    CURRENT at that point, so every position relative to opened / ended blocks matters"""
+    def __init__(self, rng):
+        self.rng = rng
+        self.n = 0
+
+    def num(self):
+        self.n += 1
+        return self.n
+
+    def simple(self, in_tell):
+        r = self.rng
+        c = r.random()
+        k = r.choice(L.SYS_K)
+        if c < 0.35:
+            return ["set", ["the", "sys", k], ["i", self.num()]]
+        if c < 0.5:
+            return ["call", "put", ["the", "sys", k]]
+        if c < 0.6:
+            return ["set", ["l", "x"], ["b", "add", ["the", "sys", k], ["i", self.num()]]]
+        if c < 0.7:
+            return ["set", ["mov", r.choice(L.MOVIE_NAMES)], ["i", self.num()]]
+        if c < 0.8:
+            return ["call", "put", ["key", r.choice(L.KEY_NAMES)]]
+        return ["call", r.choice(["updateStage", "beep", "puppetTempo", "nothing", "pause"])] + ([["i", self.num()]] if r.random() < 0.5 else [])
+
+    def items(self, depth, nest, in_tell, lo=1, hi=4):
+        r = self.rng
+        out = []
+        for _ in range(r.randint(lo, hi)):
+            c = r.random()
+            if c < 0.3 and nest < 3:
+                out.append(["tell", ["c", "window", ["s", S(r.choice(["a", "b", "intro", "tool"]))]]] + self.items(depth, nest + 1, True, 0 if r.random() < 0.1 else 1, 3))
+            elif c < 0.4 and depth > 0:
+                t = self.items(depth - 1, nest, in_tell, 1, 2)
+                e = self.items(depth - 1, nest, in_tell, 1, 2) if r.random() < 0.4 else []
+                out.append(["if", ["b", "lt", ["l", "c"], ["i", self.num()]], t, e])
+            elif c < 0.47 and depth > 0:
+                out.append(["while", ["b", "ne", ["l", "c"], ["i", self.num()]]] + self.items(depth - 1, nest, in_tell, 1, 2))
+            elif c < 0.52 and depth > 0:
+                out.append(["with", ["l", "i"], ["i", 1], ["i", 3], "up"] + self.items(depth - 1, nest, in_tell, 1, 2))
+            else:
+                out.append(self.simple(in_tell))
+        return out
+
+
+def tell_scripts(rng, n):
+    out = []
+    for i in range(n):
+        g = TellGen(rng)
+        hs = []
+        for j in range(rng.choice([1, 2, 3])):
+            body = g.items(rng.choice([0, 1, 2]), 0, False, 2, 5)
+            hs.append(["on", "h%d" % j, ["a"]] + body)
+        out.append(dict(tree=["script", ["factory", "-"], ["props"], ["globals"]] + hs, pre=[], kind="tell-blocks"))
+    # the systematic part: every arrangement of up to three blocks (sequence / nesting) with a property at every position
+    sysp = lambda v: ["set", ["the", "sys", 0x1b], ["i", v]]
+    win = lambda w: ["c", "window", ["s", S(w)]]
+    shapes = []
+    def arrangements(k):
+        """forests with k tell nodes"""
+        if k == 0:
+            return [[]]
+        res = []
+        for a in range(k):          # first tree has 1 + a nodes, the rest k - 1 - a
+            for kids in arrangements(a):
+                for rest in arrangements(k - 1 - a):
+                    res.append([kids] + rest)
+        return res
+    def build(forest, cnt):
+        items = [sysp(cnt[0])]; cnt[0] += 1
+        for kids in forest:
+            items.append(["tell", win("w%d" % cnt[0])] + build(kids, cnt))
+            items.append(sysp(cnt[0])); cnt[0] += 1
+        return items
+    for k in (1, 2, 3, 4):
+        for f in arrangements(k):
+            shapes.append(build(f, [1]))
+    for i in range(0, len(shapes), 4):
+        hs = [["on", "t%d" % j, []] + b for j, b in enumerate(shapes[i:i + 4])]
+        out.append(dict(tree=["script", ["factory", "-"], ["props"], ["globals"]] + hs, pre=[], kind="tell-arrangements"))
+    return out
+
+
 def _p(body, name="probe", params=("a",), kind="plain", props=(), hdr_globals=()):
     tree = ["script", ["factory", "-"], ["props"] + list(props), ["globals"] + list(hdr_globals), ["on", name, list(params)] + body]
     return dict(tree=with_kind(tree, kind, None) if kind != "plain" else tree, pre=[], kind="probe")
@@ -241,6 +328,15 @@ PROBES = {
     "f129_global_receiver": _p([["set", ["g", "gObj"], ["i", 0]], ["mcall", ["g", "gObj"], "mReset"]]),
     "f131_with_in_class_body": _p([["tell", ["c", "window", ["s", S("tour")]], ["call", "updateStage"]]], kind="props"),
     "f130_global_loop_variable": _p([["with", ["g", "gIdx"], ["i", 1], ["i", 3], "up", ["call", "put", ["g", "gIdx"]]]]),
+    "tell_then_nested_tell_property_after_inner": _p([
+        ["tell", ["c", "window", ["s", S("intro")]], ["call", "puppetTempo", ["i", 5]]],
+        ["tell", ["c", "window", ["s", S("a")]], ["set", ["the", "sys", 0x1b], ["i", 1]],
+         ["tell", ["c", "window", ["s", S("b")]], ["set", ["the", "sys", 0x1b], ["i", 2]]],
+         ["set", ["the", "sys", 0x1b], ["i", 3]]],
+        ["set", ["the", "sys", 0x1b], ["i", 4]]]),
+    "f138_exit_directly_in_tell": _p([["while", ["b", "ne", ["l", "c"], ["i", 1]], ["tell", ["c", "window", ["s", S("a")]], ["call", "beep"], "exitrep"]]]),
+    "f137_if_inside_tell": _p([["tell", ["c", "window", ["s", S("a")]], ["if", ["b", "lt", ["l", "c"], ["i", 2]], [["set", ["the", "sys", 0x1b], ["i", 1]]], [["call", "beep"]]],
+                                ["with", ["l", "i"], ["i", 1], ["i", 3], "up", ["call", "put", ["the", "sys", 0x1b]]]]]),
     "f23_exit_directly_in_loop": _p([["while", ["b", "ne", ["l", "c"], ["i", 1]], ["call", "put", ["i", 2]], "exitrep"]]),
 }
 
@@ -281,6 +377,7 @@ def cases(rng, tier):
     for s in c03.random_scripts(rng, dict(quick=150, thorough=4000, search=2000)[tier], allow_exit_ratio=0.15):
         scripts.append(dict(tree=with_kind(s["tree"], rng.choice(["plain", "props", "factory"]), rng), pre=s.get("pre", []), kind=s["kind"]))
     scripts += c02.wide_scripts(rng)
+    scripts += tell_scripts(rng, dict(quick=150, thorough=3000, search=1500)[tier])
     for sc in scripts:
         t = sc["tree"]
         sc["tree"] = t[:4] + [limit_features(h, t) for h in t[4:]]
